@@ -368,3 +368,17 @@ func (p *allocProv) get(u *Unit, key string) string {
 	p.cache[key] = n
 	return n
 }
+
+// hvProv: state after code without a contract: the data heap is unconstrained, the thread-local
+// ghost state (locks held, call records, local cells) is the one before
+type hvProv struct {
+	prev  *state
+	inner *entryProv
+}
+
+func (p *hvProv) get(u *Unit, key string) string {
+	if threadLocalKey(key) {
+		return p.prev.get(u, key)
+	}
+	return p.inner.get(u, key)
+}
